@@ -417,6 +417,8 @@ func (g *Gen) resolveTypeName(s string, pkg *types.Package) types.Type {
 
 // applyContract: assert requires, havoc modifies, assume ensures.
 func (g *Gen) applyContract(v ssa.Value, ct *Contract, key string, c *ssa.CallCommon, in ssa.Instruction, st State, reach string) {
+	g.calleeDepth++
+	defer func() { g.calleeDepth-- }()
 	if ct.Assumed {
 		g.assumed["assumed contract: "+trimName(key)] = true
 	}
@@ -843,6 +845,8 @@ func (g *Gen) callVars(ct *Contract, c *ssa.CallCommon, st State) map[string]T {
 }
 
 func (g *Gen) checkCallPre(ct *Contract, key string, c *ssa.CallCommon, in ssa.Instruction, st State, reach string) {
+	g.calleeDepth++
+	defer func() { g.calleeDepth-- }()
 	vars := g.callVars(ct, c, st)
 	cpkg := g.prog.typesPkg(ct.Pkg)
 	if cpkg == nil {
